@@ -48,6 +48,10 @@ CHECKS = {
             'Static: the tokeniser\'s loop body is abstracted to a transition table and its product with the grammar (OPEN PLAIN* CLOSE | PLAIN)* is explored completely (dense ranks from 1 for every list length and tie grouping); for -na 2/3 with and without -twopl the reader\'s branch conditions are turned into integer intervals over the header counts and shown to be exactly the three sections, ids = index - (start-1), each quota/target/lecturer field comes from the documented column, preference lists from the documented slice, the 2-agent embedding gives hospital j its own lecturer j with target = upper quota, rank_lecturer is set for every pair exactly under -twopl, and every cost reader of rank_lecturer is presence-guarded.',
             'Behaviour on files outside the documented grammar is not decided. Trusted: ast; str.split / replace semantics as modelled; C16.R4 for the stability-only readers.',
             'DESIGN.md section 5 C10'),
+    'C11': ('abstract interpretation of get_results for both formats with all helpers inlined; document model of the returned text; canonical aggregate algebra (sums, maxima, per-agent arrays, scatters; loops / comprehensions / built-ins / helper extraction normalise to one form) compared modulo bound names and commutativity with references written from the property statement',
+            'Static proof-by-normal-form: for the SHORT and the LONG format the text returned on the Optimal path is reduced to lines; the value printed under each of the eight statistic labels is brought to a canonical aggregate over THE list of pairs whose decision variable is set and shown equal to the reference (matching: project id scattered at the student\'s own index, 0 elsewhere; size; cost and squared cost as (student, lecturer-where-present) pairs; degree = max rank or 0; profile = one counter per rank up to the maximum rank in the documented bracket format; max / sum over lecturers of |assigned - target|); both formats print the same lines once; each listing is an array with exactly one line per student / project / lecturer, labelled index+1, carrying the assignees scattered by their own index and the occupancy / capacity / target of the same agent, in both the assigned and the unassigned case; all helpers receive one list. Equality of normal forms is for every instance and matching at once. A value inside the closed algebra that differs from the reference is a violation; a value outside it is reported as inconclusive (exit 2), never as a violation.',
+            'Trusted: ast; A1 (studentID = student_index + 1, project ids >= 1: C10); the reported pairs form a matching (C01). The numeric formatting of str() is Python\'s.',
+            'DESIGN.md section 5 C11'),
     'C12': ('scatter (group-by) normal form of the inversion; recognition of the de-duplicating structure (mask / set / membership); allow-list effect check between inversion and return; caller argument flow',
             'Static: the second-side lists are shown to be scatter(init [], key a-1, value i+1) over EVERY entry a of EVERY first-side list i into one list per second-side agent (no filter, no truncation, indexed by agent id rather than compacted), followed only by permutations; for SPA the student->lecturer lists are built through a structure indexed by lecturer (so a lecturer whose projects are ranked non-adjacently still appears once) with lecturers looked up in the same project->lecturer table that is written to the file; HA/SM/HR invert over n2, SPA over n3.',
             'First-side lists have distinct entries (replace=False: C08.R5/C17.R5). Trusted: ast; random.shuffle permutes (A4).',
